@@ -134,3 +134,14 @@ Definition gen_valve (comp : option bytes * option bytes * option bytes)
   gen* o2 := gen_reply_opts e proto (lenN (enc_players (vs_players st))) c2 base 1 in
   gen* o3 := gen_reply_opts e proto (lenN (enc_rules (vs_rules st))) c3 base 2 in
   gret (e, g, st, mk_vopts o1 o2 o3).
+
+(* replies of a server of a given game (C14): the state is generated for the
+   engine, transports without compression *)
+Definition gen_valve_for (e : engine) : G (vstate * vopts) :=
+  gen* st := gen_state e in
+  gen* base := gnum 31 in
+  gen* o1 := gen_reply_opts e 0 (lenN (enc_info (vs_info st))) None base 0 in
+  let proto := info_protocol (vs_info st) in
+  gen* o2 := gen_reply_opts e proto (lenN (enc_players (vs_players st))) None base 1 in
+  gen* o3 := gen_reply_opts e proto (lenN (enc_rules (vs_rules st))) None base 2 in
+  gret (st, mk_vopts o1 o2 o3).
